@@ -17,7 +17,15 @@ def _p(shards=None, quick=200, thorough=4000, qbudget=70, tbudget=1500, **kw):
     return d
 
 
+RULES13 = ['InverseBinaryRule', 'BlockRowBlockDiagonalRule', 'BlockDiagonalBlockColumnRule',
+           'BlockDiagonalBlockDiagonalRule', 'BlockRowBlockColumnRule', 'IndexTransposeRule', 'TransposeIndexRule',
+           'MoveAxisInverseRule', 'ReshapeInverseRule', 'PackUnpackRule', 'QURotationRule', 'QURotationHWPRule',
+           'LinearPolarizerHWPRule']
+
 PLAN = {
+    'C02': _p(quick=110, thorough=3000),
+    'C01': _p(quick=90, thorough=3000,
+              required_classes={'all': ['rule:' + r for r in RULES13] + ['rule:IdentityRule', 'rule:HomothetyRule']}),
     'C12': _p(quick=150, thorough=5000,
               required_classes={'all': ['explicit_out', 'inferred_out', 'pack', 'mask', 'multi_array',
                                         'rank2_array', 'neg_or_repeated_array', 'ellipsis_then_entries',
